@@ -132,6 +132,46 @@ class ShimFile:
         return False
 
 
+class _BlobDownload:
+    def __init__(self, data):
+        self._data = data
+
+    def readall(self):
+        return self._data
+
+
+class ShimBlob:
+    """azure BlobClient contract used by the repo: download_blob(offset=, length=).readall() returns the bytes of the
+    range (shorter at the end of the blob); every call is logged like a file read."""
+    def __init__(self, store, fault=None):
+        self.store = store
+        self.blob_name = store.name
+        self.fault = fault
+        self.closed = False
+
+    def download_blob(self, offset=None, length=None, **kw):
+        c = self.store.content
+        size = c.length
+        pos = 0 if offset is None else offset
+        n = size - pos if length is None else length
+        avail = size - pos
+        if avail < 0:
+            avail = 0
+        got = n
+        if got > avail:
+            got = avail
+        if self.fault is not None:
+            r = self.fault(self, pos, n, got)
+            if r is not None:
+                got = r
+        out = LazyBytes(got, [(0, got, c.snapshot(), pos)], False)
+        self.store.reads.append((pos, n, got))
+        return _BlobDownload(out)
+
+    def close(self):
+        self.closed = True
+
+
 class ShimFS:
     """open() replacement over named FileStores."""
     def __init__(self):
